@@ -1,3 +1,5 @@
+//go:build verif
+
 package main
 
 import (
